@@ -851,6 +851,23 @@ fn strategy(_: &Ctx) -> BoxedStrategy<Case> {
                 words[1] = es as u64;
                 words[2] = [0u64, (k - 1) as u64, 0xffff, 0xfff1, 0xff00, k as u64][(sel >> 5) as usize % 6];
             }
+            // framebuffer: every second call describes a mode that occurs (address,
+            // geometry, and a depth with the channel layout that belongs to it:
+            // 5:5:5 at 15 and 16 bpp, 5:6:5, 8:8:8 at 24 and 32 bpp, 3:3:2)
+            if (12..=14).contains(&ctor) && sel % 2 == 0 {
+                use mb2_model::realistic::{FB_ADDRS, HEIGHTS, WIDTHS};
+                const FORMATS: [(u64, [u64; 6]); 6] = [(15, [10, 5, 5, 5, 0, 5]), (16, [10, 5, 5, 5, 0, 5]), (16, [11, 5, 5, 6, 0, 5]), (24, [16, 8, 8, 8, 0, 8]), (32, [16, 8, 8, 8, 0, 8]), (8, [5, 3, 2, 3, 0, 2])];
+                let (bpp, rgb) = FORMATS[(sel >> 3) as usize % FORMATS.len()];
+                let wi = WIDTHS[(sel >> 8) as usize % WIDTHS.len()] as u64;
+                words[0] = FB_ADDRS[(sel >> 12) as usize % FB_ADDRS.len()];
+                words[1] = wi * ((bpp + 7) / 8);
+                words[2] = wi;
+                words[3] = HEIGHTS[(sel >> 16) as usize % HEIGHTS.len()] as u64;
+                words[4] = bpp;
+                for (i, v) in rgb.iter().enumerate() {
+                    words[5 + i] = *v;
+                }
+            }
             Case { ctor, words, content: Hex(content), text }
         })
         .boxed()
